@@ -98,6 +98,61 @@ def t_borrow_fee(world):
     return [ob]
 
 
+def mk_flow_tokens(name):
+    """C01.b for deposit / withdraw / repay: tokens moved by the SPL transfer cover (in-flows) / do not exceed (out-flows) what the wrapper booked"""
+    def t(world):
+        import z3
+        from specs.flows import run_flow, evs, FLOWS, MACC_FLAGS
+        from specs.handlers import short
+        eng, f, args, res = run_flow(world, name)
+        inflow = name in ('deposit', 'repay')
+        ob = Ob(f'C01.b.{name}', f'{name} handler: exactly one balance operation and one token transfer per accepting path (none for a zero deposit / the sanctioned token-less write-off); '
+                + ('tokens entering the vault >= amount booked (== it, or the fee-grossed-up amount of exactly it)' if inflow else 'tokens leaving the vault <= amount booked (== it unless the deleverage-complete clamp applies)'),
+                [f.name], 'handler mode; wrapper ops summarised (their books are C01.a), transfer-fee calculators opaque; every accepting path'); ob.paths = len(res)
+        n_ok = 0
+        for r, okc in ok_paths(res):
+            E = evs(r)
+            ops = [e for e in E if e[0] == 'wrap_op' and e[1] in FLOWS[name]['ops']]
+            kind = 'deposit_spl_transfer$' if inflow else 'withdraw_spl_transfer$'
+            T = [e for e in E if e[0] == 'call' and re.search(kind, e[1])]
+            if ob.witness(eng, r, [okc]) is False: continue
+            n_ok += 1
+            if not ops:
+                if T: ob.structural('tokens are transferred on a path that books nothing', 'transfer-without-booking', {'trace': [x[1] if x[0] != 'call' else short(x[1]) for x in E][:60]})
+                else: ob.queries += 1; ob.unsat += 1
+                continue
+            if len(ops) != 1 or len(T) > 1: ob.fail(f'{len(ops)} balance ops / {len(T)} transfers on one accepting path'); continue
+            op = ops[0]
+            booked = op[4].e * W if op[4] is not None else op[3].e       # *_all return the whole-token amount; the others book their argument
+            if not T:
+                if name == 'repay':
+                    # the only sanctioned no-transfer path: risk admin, TOKENLESS_REPAYMENTS_ALLOWED (bit 5), repay_all
+                    names = free_consts(z3.And(r['pc']))
+                    fl = [n for n in names if n.endswith(str(fsym('X', 'Bank', 'flags'))[1:])]
+                    ob.queries += 1
+                    if op[1] == 'repay_all' and fl: ob.unsat += 1
+                    else: ob.sat += 1; ob.cex.append({'ob': ob.oid, 'label': 'debt is written off without tokens outside the sanctioned risk-admin path', 'role': 'no-transfer', 'model': {'op': op[1]}, 'replay': None}); continue
+                    ob.prove(eng, r, [okc], z3.Or([(z3.Int(n) / 32) % 2 == 1 for n in fl]), 'token-less repayment only with TOKENLESS_REPAYMENTS_ALLOWED set', role='no-transfer')
+                else:
+                    ob.structural(f'{name}: balance operation {op[1]} without a token transfer', 'no-transfer', {'trace': [x[1] if x[0] != 'call' else short(x[1]) for x in E][:60]})
+                continue
+            t_amt = T[0][2][1].e
+            ob.prove(eng, r, [okc], z3.And(op[5] == 0, zint(T[0][3].disc) == 0), 'wrapper / transfer errors propagated')
+            calc = [(e, cnd) for e, cnd in events_with_cond(r['events']) if e[0] == 'call' and re.search(r'calculate_pre_fee_spl_deposit_amount$', e[1])]
+            if inflow:
+                alts = [t_amt * W == booked] + [z3.And(cnd, c[2][1].e * W == booked, zint(c[3].disc) == 0, t_amt == c[3].payload[0][0].e) for c, cnd in calc]
+                ob.prove(eng, r, [okc], z3.Or(alts), 'tokens in == booked amount, or == pre-fee amount computed from exactly the booked amount', role='tokens-in')
+            else:
+                ob.prove(eng, r, [okc], z3.And(t_amt >= 0, t_amt * W <= booked), 'tokens out <= booked amount', role='tokens-out')
+                bank_flags = [n for n in free_consts(z3.And(r['pc'])) if n.endswith(str(fsym('X', 'Bank', 'flags'))[1:])]
+                noclamp = [(z3.Int(n) / 64) % 2 == 0 for n in bank_flags]
+                ob.prove(eng, r, [okc] + noclamp, t_amt * W == booked, 'tokens out == booked amount (no deleverage-complete clamp)', role='tokens-out-exact')
+        ob.notes.append(f'{n_ok} accepting paths')
+        ob.need_witness()
+        return [ob]
+    return t
+
+
 def tasks(tier):
     n = 40 if tier == 'quick' else 1000
-    return [('borrow_fee', t_borrow_fee), ('cache_frame', t_cache_frame)] + [(f'{op}', wrapper_task(op, 'C01', n)) for op in OPS if goals_for(op, OpPre, ('C01',))]
+    return [('borrow_fee', t_borrow_fee), ('cache_frame', t_cache_frame)] + [(f'tokens_{x}', mk_flow_tokens(x)) for x in ('deposit', 'withdraw', 'repay')] + [(f'{op}', wrapper_task(op, 'C01', n)) for op in OPS if goals_for(op, OpPre, ('C01',))]
